@@ -159,6 +159,7 @@ def run(ctx, model=None):
         check_case(ctx, gen.with_huge_rewards(gen.layered_tie_game(rng)), model)
         check_case(ctx, gen.with_empty_action(gen.layered_tie_game(rng), rng), model)
         check_case(ctx, gen.integer_game(rng), None)
+    through_run_games(ctx, rng, 12 if ctx.quick() else 300)
     N = 300 if ctx.quick() else 30000
     for k in range(N):
         g = gen.slow_cycle_game(rng) if k % 9 == 0 else gen.layered_tie_game(rng) if k % 2 == 0 else \
@@ -166,6 +167,36 @@ def run(ctx, model=None):
         check_case(ctx, g, model)
         if ctx.time_left() < 0:
             return
+
+
+def through_run_games(ctx, rng, count):
+    """the diagnostics as the batch runner reports them (blocks <name> and <name>_no_prune), also for a
+    game whose own name merely ends in _no_prune"""
+    from crlib import repo, quiet, time_limit, Timeout
+    cr = repo("conditionalrewards")
+    for k in range(count):
+        g = gen.layered_tie_game(rng) if k % 2 else gen.stopping_game(rng, n_inner=rng.randint(2, 5))
+        name = rng.choice(["t", "board_3", "case_no_prune", "x_no_prune"])
+        try:
+            with quiet(), time_limit(30.0):
+                res = cr.run_games({name: gen.desc(g)})
+        except Timeout:
+            ctx.count("timeout")
+            continue
+        except Exception as e:  # noqa
+            ctx.violation("batch-reports-diagnostics", {"game": gen.desc(g), "name": name}, {"error": type(e).__name__, "msg": str(e)[:200]})
+            return
+        ctx.case({"game": gen.desc(g), "name": name, "via": "run_games"}, True)
+        for prune, key in ((True, name), (False, name + "_no_prune")):
+            o = impl.solve(g, prune, want_nodes=False)
+            e = res.get(key)
+            if o["outcome"] != "ok" or e is None or e.get("msg") != "Game solved":
+                continue
+            if e["prob_min_rew"] != o["res"][6] or e["rew_min_reach"] != o["res"][7] or e["final_strategies"] != o["res"][0]:
+                ctx.violation("batch-reports-diagnostics", {"game": gen.desc(g), "name": name, "block": key, "prune": prune},
+                              {"block": {"prob_min_rew": e["prob_min_rew"], "rew_min_reach": e["rew_min_reach"]},
+                               "solve": {"prob_min_rew": o["res"][6], "rew_min_reach": o["res"][7]}})
+                return
 
 
 def known_findings(ctx):
